@@ -4,6 +4,8 @@ import (
 	"fmt"
 	"go/ast"
 	"go/token"
+	"os"
+	"path/filepath"
 	"sort"
 	"strings"
 )
@@ -20,7 +22,7 @@ import (
 func init() { generators = append(generators, genTyped) }
 
 func genTyped() {
-	lf := newLean("Typed", "Sources: decryptor/{mysql,postgresql}/types/*.go, decryptor/{mysql,postgresql}/proxy.go, decryptor/mysql/base/type.go, encryptor/base/config/common/encryptedTypes.go.")
+	lf := newLean("Typed", "Sources: decryptor/{mysql,postgresql}/types/*.go, decryptor/{mysql,postgresql}/proxy.go, decryptor/mysql/base/type.go, encryptor/base/config/common/encryptedTypes.go, encryptor/base/config/encryptionSettings.go, masking/common.")
 	menv := newConstEnv("decryptor/mysql/base/type.go")
 	for _, n := range []string{"TypeTiny", "TypeShort", "TypeLong", "TypeFloat", "TypeDouble", "TypeNull", "TypeLongLong", "TypeInt24", "TypeYear", "TypeBlob", "TypeString", "TypeVarString", "TypeVarchar"} {
 		lf.def("my"+n, "Nat", fmt.Sprint(menv.need(n, "decryptor/mysql/base/type.go")), "base."+n)
@@ -217,4 +219,356 @@ func genTyped() {
 		lf.def(name+"SubscribeOrder", "List String", strList(order), "arguments of the SubscribeOnAllColumnsDecryption calls of "+rel+" in source order")
 	}
 	_ = token.ADD
+	genTypeAware(lf)
+}
+
+// genTypeAware: which column settings are "type aware" (description rewrite of the PostgreSQL proxy) and which
+// combinations of options BasicColumnEncryptionSetting.Init accepts – encryptor/base/config/encryptionSettings.go.
+//
+//	settingFlags            the SettingMask bit of every Setting…Flag constant
+//	validSettingMasks       the keys of `validSettings` (every accepted combination), evaluated, ascending
+//	onlyEncryptionMask      the mask OnlyEncryption() tests against zero
+//	typeAwareDisjuncts      the disjuncts of HasTypeAwareSupport's return expression (method names / local names)
+//	maskingSupportRequires  what the local `maskingSupport` of HasTypeAwareSupport demands
+//	binaryOpDisjuncts       the disjuncts of IsBinaryDataOperation
+//	maskingDataTypes        data types ValidateMaskingParams accepts (masking/common)
+//	tokenTypeDataTypes      TokenTypeToEncryptedDataType
+//	typeAwareCallSites      functions of decryptor/postgresql/pg_decryptor.go that consult HasTypeAwareSupport
+func genTypeAware(lf *leanFile) {
+	const rel = "encryptor/base/config/encryptionSettings.go"
+	env := newConstEnv(rel)
+	f := parseFile(rel)
+	if f == nil {
+		return
+	}
+	// --- flags, in declaration order
+	var flagRows []string
+	flagVals := map[string]uint64{}
+	for _, d := range f.Decls {
+		gd, ok := d.(*ast.GenDecl)
+		if !ok || gd.Tok != token.CONST {
+			continue
+		}
+		for _, s := range gd.Specs {
+			for _, n := range s.(*ast.ValueSpec).Names {
+				if strings.HasPrefix(n.Name, "Setting") && strings.HasSuffix(n.Name, "Flag") {
+					flagRows = append(flagRows, fmt.Sprintf("(%q, %d)", n.Name, env.need(n.Name, rel)))
+					flagVals[n.Name] = env.need(n.Name, rel)
+				}
+			}
+		}
+	}
+	if len(flagRows) == 0 {
+		fail("%s: no Setting…Flag constants found", rel)
+	}
+	// the flags the model of Init / OnlyEncryption / IsSearchable names individually
+	for _, n := range []string{"SettingReEncryptionFlag", "SettingMaskingFlag", "SettingMaskingPlaintextLengthFlag", "SettingMaskingPlaintextSideFlag",
+		"SettingTokenizationFlag", "SettingTokenTypeFlag", "SettingSearchFlag", "SettingClientIDFlag", "SettingAcraBlockEncryptionFlag",
+		"SettingAcraStructEncryptionFlag", "SettingDataTypeFlag", "SettingDefaultDataValueFlag", "SettingOnFailFlag", "SettingDataTypeIDFlag"} {
+		v, ok := flagVals[n]
+		if !ok {
+			fail("%s: constant %s not found", rel, n)
+		}
+		lf.def(strings.ToLower(n[:1])+n[1:], "Nat", fmt.Sprint(v), "config."+n)
+	}
+	lf.def("settingFlags", "List (String × Nat)", "[\n  "+strings.Join(flagRows, ",\n  ")+"]", "config.Setting…Flag (SettingMask bits) in declaration order")
+
+	// --- validSettings
+	var masks []uint64
+	if e, ok := packageVars(rel)["validSettings"]; !ok {
+		fail("%s: validSettings not found", rel)
+	} else if cl, ok := e.(*ast.CompositeLit); !ok {
+		fail("%s: validSettings is not a literal", rel)
+	} else {
+		for _, el := range cl.Elts {
+			kv, ok := el.(*ast.KeyValueExpr)
+			if !ok {
+				fail("%s: validSettings entry has an unexpected shape", rel)
+				continue
+			}
+			masks = append(masks, env.intOf(kv.Key, rel))
+		}
+	}
+	sort.Slice(masks, func(i, j int) bool { return masks[i] < masks[j] })
+	if len(masks) == 0 {
+		fail("%s: validSettings is empty", rel)
+	}
+	lf.def("validSettingMasks", "List Nat", natList(masks), "keys of config.validSettings (accepted option combinations), ascending")
+
+	// --- OnlyEncryption: `return s.settingMask&(A|B|C) == 0`
+	if fd := funcDecl(rel, "BasicColumnEncryptionSetting", "OnlyEncryption"); fd != nil {
+		ok := false
+		if len(fd.Body.List) == 1 {
+			if rs, isRet := fd.Body.List[0].(*ast.ReturnStmt); isRet && len(rs.Results) == 1 {
+				if cmp, isBin := rs.Results[0].(*ast.BinaryExpr); isBin && cmp.Op == token.EQL {
+					if and, isAnd := cmp.X.(*ast.BinaryExpr); isAnd && and.Op == token.AND {
+						if zero, isLit := cmp.Y.(*ast.BasicLit); isLit && zero.Value == "0" {
+							if sel, isSel := and.X.(*ast.SelectorExpr); isSel && sel.Sel.Name == "settingMask" {
+								lf.def("onlyEncryptionMask", "Nat", fmt.Sprint(env.intOf(and.Y, rel)), "OnlyEncryption(): settingMask & this == 0")
+								ok = true
+							}
+						}
+					}
+				}
+			}
+		}
+		if !ok {
+			fail("%s: OnlyEncryption is no longer `return s.settingMask&(…) == 0`", rel)
+		}
+	}
+
+	// disjuncts of a `||` chain: method calls on the setting → method name; identifiers → name; `x == C` / `len(x()) != 0` → text
+	var disj func(e ast.Expr) []string
+	term := func(e ast.Expr) string {
+		switch t := e.(type) {
+		case *ast.Ident:
+			return t.Name
+		case *ast.CallExpr:
+			if sel, ok := t.Fun.(*ast.SelectorExpr); ok && len(t.Args) == 0 {
+				return sel.Sel.Name
+			}
+		case *ast.BinaryExpr:
+			side := func(x ast.Expr) string {
+				switch u := x.(type) {
+				case *ast.BasicLit:
+					return u.Value
+				case *ast.SelectorExpr:
+					return u.Sel.Name
+				case *ast.CallExpr:
+					if sel, ok := u.Fun.(*ast.SelectorExpr); ok && len(u.Args) == 0 {
+						return sel.Sel.Name
+					}
+					if id, ok := u.Fun.(*ast.Ident); ok && id.Name == "len" && len(u.Args) == 1 {
+						if c, ok := u.Args[0].(*ast.CallExpr); ok {
+							if sel, ok := c.Fun.(*ast.SelectorExpr); ok {
+								return "len " + sel.Sel.Name
+							}
+						}
+					}
+				}
+				return "?"
+			}
+			return side(t.X) + " " + t.Op.String() + " " + side(t.Y)
+		}
+		return "?"
+	}
+	disj = func(e ast.Expr) []string {
+		if p, ok := e.(*ast.ParenExpr); ok {
+			return disj(p.X)
+		}
+		if b, ok := e.(*ast.BinaryExpr); ok && b.Op == token.LOR {
+			return append(disj(b.X), disj(b.Y)...)
+		}
+		return []string{term(e)}
+	}
+
+	// --- HasTypeAwareSupport
+	if fd := funcDecl(rel, "", "HasTypeAwareSupport"); fd != nil {
+		// expected shape: maskingSupport := setting.GetMaskingPattern() != ""; if setting.GetDBDataTypeID() == 0 { maskingSupport = false }; return a || b || …
+		var ret *ast.ReturnStmt
+		var requires []string
+		locals := map[string]bool{}
+		for _, st := range fd.Body.List {
+			switch t := st.(type) {
+			case *ast.AssignStmt:
+				if len(t.Lhs) == 1 && len(t.Rhs) == 1 && t.Tok == token.DEFINE {
+					if id, ok := t.Lhs[0].(*ast.Ident); ok {
+						locals[id.Name] = true
+						if id.Name == "maskingSupport" {
+							requires = append(requires, term(t.Rhs[0]))
+						}
+					}
+				}
+			case *ast.IfStmt:
+				// if <cond> { maskingSupport = false }  ⇒ maskingSupport additionally requires ¬cond
+				okShape := false
+				if t.Else == nil && t.Init == nil && len(t.Body.List) == 1 {
+					if as, ok := t.Body.List[0].(*ast.AssignStmt); ok && as.Tok == token.ASSIGN && len(as.Lhs) == 1 && len(as.Rhs) == 1 {
+						l, _ := as.Lhs[0].(*ast.Ident)
+						r, _ := as.Rhs[0].(*ast.Ident)
+						if l != nil && r != nil && l.Name == "maskingSupport" && r.Name == "false" {
+							requires = append(requires, "not "+term(t.Cond))
+							okShape = true
+						}
+					}
+				}
+				if !okShape {
+					fail("%s: HasTypeAwareSupport: unexpected if statement", rel)
+				}
+			case *ast.ReturnStmt:
+				ret = t
+			default:
+				fail("%s: HasTypeAwareSupport: unexpected statement", rel)
+			}
+		}
+		if ret == nil || len(ret.Results) != 1 {
+			fail("%s: HasTypeAwareSupport: no single return expression", rel)
+		} else {
+			ds := disj(ret.Results[0])
+			for _, d := range ds {
+				if d == "?" {
+					fail("%s: HasTypeAwareSupport: a disjunct of the return expression has an unexpected shape", rel)
+				}
+			}
+			lf.def("typeAwareDisjuncts", "List String", strList(ds), "HasTypeAwareSupport: `return d1 || d2 || …` (setting methods by name, locals by name)")
+			lf.def("maskingSupportRequires", "List String", strList(requires), "HasTypeAwareSupport: conditions under which the local `maskingSupport` is true")
+		}
+	}
+
+	// --- IsBinaryDataOperation: hasBinaryOperation := a; hasBinaryOperation = hasBinaryOperation || b || c; …; return hasBinaryOperation
+	if fd := funcDecl(rel, "", "IsBinaryDataOperation"); fd != nil {
+		var ds []string
+		for _, st := range fd.Body.List {
+			switch t := st.(type) {
+			case *ast.AssignStmt:
+				if len(t.Rhs) != 1 {
+					fail("%s: IsBinaryDataOperation: unexpected assignment", rel)
+					continue
+				}
+				for _, d := range disj(t.Rhs[0]) {
+					if d != "hasBinaryOperation" {
+						ds = append(ds, d)
+					}
+				}
+			case *ast.ReturnStmt:
+			default:
+				fail("%s: IsBinaryDataOperation: unexpected statement", rel)
+			}
+		}
+		for _, d := range ds {
+			if strings.Contains(d, "?") {
+				fail("%s: IsBinaryDataOperation: a disjunct has an unexpected shape (%s)", rel, d)
+			}
+		}
+		lf.def("binaryOpDisjuncts", "List String", strList(ds), "IsBinaryDataOperation: the accumulated disjuncts")
+	}
+
+	// --- ValidateMaskingParams: the data types of the accepting `case`
+	const mrel = "masking/common/common.go"
+	mfile := mrel
+	if parseFileQuiet(mrel) == nil {
+		mfile = findFuncFile("masking/common", "ValidateMaskingParams")
+	}
+	if mfile == "" {
+		fail("masking/common: ValidateMaskingParams not found")
+	} else if fd := funcDecl(mfile, "", "ValidateMaskingParams"); fd != nil {
+		var types []string
+		ast.Inspect(fd.Body, func(n ast.Node) bool {
+			sw, ok := n.(*ast.SwitchStmt)
+			if !ok {
+				return true
+			}
+			for _, c := range sw.Body.List {
+				cc := c.(*ast.CaseClause)
+				if cc.List == nil {
+					continue
+				}
+				accepts := true
+				for _, st := range cc.Body {
+					if _, isRet := st.(*ast.ReturnStmt); isRet {
+						accepts = false
+					}
+				}
+				if accepts {
+					for _, e := range cc.List {
+						if sel, ok := e.(*ast.SelectorExpr); ok {
+							types = append(types, sel.Sel.Name)
+						}
+					}
+				}
+			}
+			return false
+		})
+		if len(types) == 0 {
+			fail("%s: ValidateMaskingParams: no accepting case of the data type switch found", mfile)
+		}
+		lf.def("maskingDataTypes", "List String", strList(types), "ValidateMaskingParams: data types masking may be combined with")
+	}
+
+	// --- TokenTypeToEncryptedDataType
+	const trel = "encryptor/base/config/common/encryptedTypes.go"
+	if fd := funcDecl(trel, "", "TokenTypeToEncryptedDataType"); fd != nil {
+		var rows []string
+		ast.Inspect(fd.Body, func(n ast.Node) bool {
+			cc, ok := n.(*ast.CaseClause)
+			if !ok || len(cc.Body) != 1 {
+				return true
+			}
+			rs, ok := cc.Body[0].(*ast.ReturnStmt)
+			if !ok || len(rs.Results) != 1 {
+				return true
+			}
+			to, _ := rs.Results[0].(*ast.Ident)
+			for _, e := range cc.List {
+				if sel, ok := e.(*ast.SelectorExpr); ok && to != nil {
+					rows = append(rows, fmt.Sprintf("(%q, %q)", sel.Sel.Name, to.Name))
+				}
+			}
+			return true
+		})
+		if len(rows) == 0 {
+			fail("%s: TokenTypeToEncryptedDataType: no cases found", trel)
+		}
+		lf.def("tokenTypeDataTypes", "List (String × String)", "["+strings.Join(rows, ", ")+"]", "common.TokenTypeToEncryptedDataType")
+	}
+
+	// --- who asks HasTypeAwareSupport in the PostgreSQL proxy, and what is written when it holds
+	const prel = "decryptor/postgresql/pg_decryptor.go"
+	if pf := parseFile(prel); pf != nil {
+		var sites []string
+		for _, d := range pf.Decls {
+			fd, ok := d.(*ast.FuncDecl)
+			if !ok || fd.Body == nil {
+				continue
+			}
+			ast.Inspect(fd.Body, func(n ast.Node) bool {
+				is, ok := n.(*ast.IfStmt)
+				if !ok {
+					return true
+				}
+				c, ok := is.Cond.(*ast.CallExpr)
+				if !ok {
+					return true
+				}
+				if sel, ok := c.Fun.(*ast.SelectorExpr); ok && sel.Sel.Name == "HasTypeAwareSupport" {
+					sites = append(sites, fd.Name.Name)
+				}
+				return true
+			})
+		}
+		sort.Strings(sites)
+		lf.def("typeAwareCallSites", "List String", strList(sites), "functions of "+prel+" with `if config.HasTypeAwareSupport(setting) {…}`")
+	}
+}
+
+// parseFileQuiet: parseFile without recording a failure when the file does not exist
+func parseFileQuiet(rel string) *ast.File {
+	if _, err := os.Stat(filepath.Join(repo, rel)); err != nil {
+		return nil
+	}
+	return parseFile(rel)
+}
+
+// findFuncFile: the file of a directory that declares a top-level function
+func findFuncFile(dir, name string) string {
+	ents, err := os.ReadDir(filepath.Join(repo, dir))
+	if err != nil {
+		return ""
+	}
+	for _, e := range ents {
+		if e.IsDir() || !strings.HasSuffix(e.Name(), ".go") || strings.HasSuffix(e.Name(), "_test.go") {
+			continue
+		}
+		rel := dir + "/" + e.Name()
+		f := parseFile(rel)
+		if f == nil {
+			continue
+		}
+		for _, d := range f.Decls {
+			if fd, ok := d.(*ast.FuncDecl); ok && fd.Recv == nil && fd.Name.Name == name {
+				return rel
+			}
+		}
+	}
+	return ""
 }
